@@ -9,22 +9,119 @@ Property theorems only (definitions: `Model/Regex.lean`, `Model/Strop.lean`; gen
 namespace NunavutVerif.Strop
 open NunavutVerif.Regex NunavutVerif.Gen.StropCfg
 
-/-- T1 (structural, ANY configuration): a token that `strop` returns without a failure handler having
-produced it is not reserved, matches no reserved pattern of `all` / its id type, and no encoding rule of
-`all` / its id type matches at its start. -/
-theorem C09_structural_recheck (cfg : Cfg) (tok ty r : Str)
-    (h : stropTrace cfg tok ty = .ok (r, false)) :
+/-- T1 (structural, ANY configuration, any handler): a token that `strop` returns is not reserved, matches no
+reserved pattern of `all` / its id type, and no encoding rule of `all` / its id type matches at its start.
+(For the code as found this holds only when no failure handler supplied the token — `stropTraceBeforeFix`,
+see the witness below.) -/
+theorem C09_structural_recheck (cfg : Cfg) (tok ty r : Str) (h : strop cfg tok ty = .ok r) :
     isReserved cfg r = false ∧
     patDry cfg tyAll r = false ∧ patDry cfg (lowerAscii ty) r = false ∧
     encodeDry cfg tyAll r = false ∧ encodeDry cfg (lowerAscii ty) r = false := by
-  obtain ⟨_, s2, f2, s3, f3, h2, h3, h4⟩ := stropTrace_ok h
-  obtain ⟨e1, e2, e3⟩ := recheck_ok_false h4
-  subst e2 e3
-  obtain ⟨k1, k2, k3⟩ := recheck_ok_false h3
-  subst k2 k3
-  obtain ⟨p1, p2, _⟩ := recheck_ok_false h2
-  subst p2
-  simp only [Bool.or_eq_false_iff] at e1 p1
-  exact ⟨k1, p1.1, p1.2, e1.1, e1.2⟩
+  obtain ⟨g, hg⟩ := strop_ok_iff.mp h
+  exact stropTrace_rechecked hg
+
+/-- T2 (the three shipped configurations as generated from the tree under check, every non-empty token, every
+id type incl. unknown ones): whatever `strop` returns is `[A-Za-z_][A-Za-z0-9_]*`, is not a reserved identifier
+and matches no reserved pattern of `all` / its id type (`acceptable`) — handler paths included. -/
+theorem C09_shipped_valid_unreserved (cfg : Cfg) (hcfg : cfg = cfgC ∨ cfg = cfgCpp ∨ cfg = cfgPy)
+    (tok ty r : Str) (ht : tok ≠ []) (h : strop cfg tok ty = .ok r) :
+    acceptable cfg (lowerAscii ty) r = true := by
+  obtain ⟨g, hg⟩ := strop_ok_iff.mp h
+  have h2 := stropTrace_rechecked hg
+  have h1 : isIdent r = true := by
+    rcases hcfg with rfl | rfl | rfl
+    · exact stropTrace_ident wordCfgC nonWordRuleC catchesDigitC ht hg
+    · exact stropTrace_ident wordCfgCpp nonWordRuleCpp catchesDigitCpp ht hg
+    · exact stropTrace_ident wordCfgPy nonWordRulePy catchesDigitPy ht hg
+  simp [acceptable, h1, h2.1, h2.2.1, h2.2.2.1]
+
+/-- T2 for any configuration that has the three recognisable ingredients (prefix / suffix / encoding prefix /
+whitespace character made of word characters; an `all` encoding rule `[K]+` whose complement is word
+characters; a leading ASCII digit caught by an `all` pattern or encoding rule) — e.g. the override stream of
+the harness with word-character prefixes. -/
+theorem C09_valid_unreserved_of_ingredients (cfg : Cfg) (hw : WordCfg cfg) (hr : HasNonWordRule cfg)
+    (hd : CatchesLeadingDigit cfg) (tok ty r : Str) (ht : tok ≠ []) (h : strop cfg tok ty = .ok r) :
+    acceptable cfg (lowerAscii ty) r = true := by
+  obtain ⟨g, hg⟩ := strop_ok_iff.mp h
+  have h2 := stropTrace_rechecked hg
+  have h1 := stropTrace_ident hw hr hd ht hg
+  simp [acceptable, h1, h2.1, h2.2.1, h2.2.2.1]
+
+/-- T3 (fixed point, ANY configuration): a token that is not reserved, matches no reserved pattern of `all` /
+its id type and in which no encoding rule of `all` / its id type matches anywhere is returned unchanged, with
+no handler involved.  (In particular every token that satisfies `acceptable` and `encodingFree`.) -/
+theorem C09_fixed_point (cfg : Cfg) (tok ty : Str) (hty : lowerAscii ty ≠ tyAll)
+    (hres : isReserved cfg tok = false) (hp1 : patDry cfg tyAll tok = false)
+    (hp2 : patDry cfg (lowerAscii ty) tok = false) (henc : encodingFree cfg (lowerAscii ty) tok = true) :
+    strop cfg tok ty = .ok tok ∧ stropTrace cfg tok ty = .ok (tok, false) := by
+  have h := strop_fixed hty hres hp1 hp2 henc
+  exact ⟨by simp [strop, h, Except.map], h⟩
+
+/-- T3 in the property's words. -/
+theorem C09_acceptable_unchanged (cfg : Cfg) (tok ty : Str) (hty : lowerAscii ty ≠ tyAll)
+    (hacc : acceptable cfg (lowerAscii ty) tok = true) (henc : encodingFree cfg (lowerAscii ty) tok = true) :
+    strop cfg tok ty = .ok tok := by
+  simp only [acceptable, Bool.and_eq_true, Bool.not_eq_true'] at hacc
+  exact (C09_fixed_point cfg tok ty hty hacc.1.1.2 hacc.1.2 hacc.2 henc).1
+
+/-- The id type `all` (any ASCII spelling) is refused. -/
+theorem C09_type_all_is_value_error (cfg : Cfg) (tok ty : Str) (hty : lowerAscii ty = tyAll) :
+    strop cfg tok ty = .error .valueError := by
+  simp [strop, stropTrace, stropTraceBeforeFix, hty, Except.map]
+
+/-- For the shipped configurations the proposed fix changes nothing, on any input: no reserved identifier has
+the form of a handler token (`_`, or `_` + a character that is neither `_` nor `A-Z`) and no reserved pattern or
+encoding rule can match at the start of one (`handlerSafe`, decided over the whole generated tables); py has no
+handler. -/
+theorem C09_shipped_fix_is_identity (cfg : Cfg) (hcfg : cfg = cfgC ∨ cfg = cfgCpp ∨ cfg = cfgPy) (tok ty : Str) :
+    stropBeforeFix cfg tok ty = strop cfg tok ty := by
+  unfold stropBeforeFix strop
+  rcases hcfg with rfl | rfl | rfl
+  · rw [stropTrace_eq_beforeFix handlerSafeC]
+  · rw [stropTrace_eq_beforeFix handlerSafeCpp]
+  · rw [stropTrace_eq_beforeFix_of_no_handler rfl rfl]
+
+/-- T2 for the code as found (`stropBeforeFix`), shipped configurations. -/
+theorem C09_shipped_valid_unreserved_before_fix (cfg : Cfg) (hcfg : cfg = cfgC ∨ cfg = cfgCpp ∨ cfg = cfgPy)
+    (tok ty r : Str) (ht : tok ≠ []) (h : stropBeforeFix cfg tok ty = .ok r) :
+    acceptable cfg (lowerAscii ty) r = true := by
+  rw [C09_shipped_fix_is_identity cfg hcfg] at h
+  exact C09_shipped_valid_unreserved cfg hcfg tok ty r ht h
+
+/-! ### non-vacuity: the theorems' hypotheses are met by non-trivial runs (strings as code points) -/
+section examples
+private def lit (x : String) : Str := x.toList.map Char.toNat
+
+-- keyword, prefix: `for` ↦ `_for`; suffix: `if` ↦ `if_`
+example : strop cfgC (lit "for") (lit "any") = .ok (lit "_for") := by decide +kernel
+example : strop cfgPy (lit "if") (lit "any") = .ok (lit "if_") := by decide +kernel
+-- encoding, then a reserved pattern of C++ (`^\d{1}`): `1 a-` ↦ `_1_azX002D`
+example : strop cfgCpp (lit "1 a-") (lit "path") = .ok (lit "_1_azX002D") := by decide +kernel
+example : strop cfgC (lit "1 a-") (lit "path") = .ok (lit "zX0031_azX002D") := by decide +kernel
+-- typed patterns: `isfoo` is reserved for functions only
+example : strop cfgC (lit "isfoo") (lit "function") = .ok (lit "_isfoo") := by decide +kernel
+example : strop cfgC (lit "isfoo") (lit "macro") = .ok (lit "isfoo") := by decide +kernel
+example : strop cfgC (lit "isfoo") (lit "ANY") = .ok (lit "_isfoo") := by decide +kernel
+-- the failure handler fires and its token survives the final verification
+example : stropTrace cfgC (lit "__Bool") (lit "any") = .ok (lit "_bool", true) := by decide +kernel
+example : stropTrace cfgCpp (lit "_A") (lit "any") = .ok (lit "_a", true) := by decide +kernel
+-- fixed point and its side condition: `a__` is a C identifier but C++'s rule `_{2,}$` encodes it
+example : acceptable cfgCpp (lit "any") (lit "abc") = true ∧ encodingFree cfgCpp (lit "any") (lit "abc") = true := by decide +kernel
+example : acceptable cfgCpp (lit "any") (lit "a__") = true ∧ encodingFree cfgCpp (lit "any") (lit "a__") = false ∧
+    strop cfgCpp (lit "a__") (lit "any") = .ok (lit "azX005FzX005F") := by decide +kernel
+example : strop cfgC (lit "x") (lit "All") = .error .valueError := by decide +kernel
+end examples
+
+/-! ### The defect of the code as found (regression witness, replayed on the implementation by the harness)
+
+C configuration with the single extra reserved identifier `_for`: `for` ↦ `_for` ↦ `__for` (keyword, twice)
+↦ `___for` (pattern `^__`) ↦ handler ↦ `_for`, which is reserved, ↦ handler again ↦ `_for`, returned. -/
+def cfgWitness : Cfg := { cfgC with reserved := [95, 102, 111, 114] :: cfgC.reserved }
+
+example : stropBeforeFix cfgWitness [102, 111, 114] [97, 110, 121] = .ok [95, 102, 111, 114] ∧
+    isReserved cfgWitness [95, 102, 111, 114] = true := by decide +kernel
+
+/-- the repaired code raises instead -/
+example : strop cfgWitness [102, 111, 114] [97, 110, 121] = .error .illegalToken := by decide +kernel
 
 end NunavutVerif.Strop
